@@ -21,10 +21,15 @@ for ID in "$@"; do
   # install demo into the worktree: files at top level of SRC go to the directory named in demo_path.txt (first path-like token), nested ones keep their path
   DEMODIR=$(grep -oE '(internal|framework|cmd|tests)/[A-Za-z0-9_/.-]*' $SRC/demo_path.txt | head -1)
   DEMODIR=${DEMODIR%/}; case "$DEMODIR" in *.go) DEMODIR=$(dirname $DEMODIR);; esac
-  (cd $SRC && find . -type f -name '*.go' | while read f; do
-     d=$(dirname $f)
-     if [ "$d" = "." ]; then mkdir -p $WT/$DEMODIR; cp $f $WT/$DEMODIR/; else mkdir -p $WT/$d; cp $f $WT/$d/; fi; done)
+  (cd $SRC && find . -type f \( -name '*.go' -o -name '*.sh' \) | while read f; do
+     d=$(dirname $f); d=${d#./}
+     case "$d" in
+       .) mkdir -p $WT/$DEMODIR; cp $f $WT/$DEMODIR/;;
+       internal/*|framework/*|cmd/*|tests/*) mkdir -p $WT/$d; cp $f $WT/$d/;;
+       *) mkdir -p $WT/$DEMODIR/$d; cp $f $WT/$DEMODIR/$d/;;
+     esac; done)
   CMD=$(grep -oE 'go test [^`]*' $SRC/demo_path.txt | head -1)
+  [ -f $SRC/cmd_override.txt ] && CMD=$(cat $SRC/cmd_override.txt)
   [ -z "$CMD" ] && CMD="go test -vet=off -count=1 -run TestSeed$ID ./$DEMODIR/"
   echo "demo dir: $DEMODIR ; cmd: $CMD" >> $LOG
   cd $WT
@@ -38,7 +43,7 @@ for ID in "$@"; do
   go test -vet=off -count=1 ./... > $OUT/suite.txt 2>&1
   NOK=$(grep -c '^ok' $OUT/suite.txt); NFAIL=$(grep -E '^(FAIL|---)' $OUT/suite.txt | grep -v maddy-pam-helper | grep -vc '^FAIL$')
   echo "suite: ok=$NOK fail_lines=$NFAIL" >> $LOG
-  rm -f $OUT/suite.txt
+  if [ "$NFAIL" -eq 0 ] && [ "$NOK" -ge 27 ]; then rm -f $OUT/suite.txt; else grep -vE "no test files|^ok" $OUT/suite.txt | head -60 >> $LOG; rm -f $OUT/suite.txt; fi
   cd /
   git -C /repo worktree remove --force $WT
   VERDICT=rejected
